@@ -21,6 +21,7 @@ type Sorts struct {
 	cuts     int // number of recursion cuts so far (results computed across a cut are not cached)
 	keep     map[string]map[string]bool // struct sort -> fields to materialise (nil: all)
 	used     map[string]map[string]bool // struct sort -> fields accessed in this run
+	structOwner map[*types.Struct]string // shared underlying struct -> the sort name chosen for it
 }
 
 type StructSort struct {
@@ -153,6 +154,18 @@ func (s *Sorts) sortOf1(t types.Type, key string) string {
 			name := "S_" + sanitize(shortPkg(u.Obj().Pkg())+"."+u.Obj().Name())
 			if u.TypeArgs() != nil && u.TypeArgs().Len() > 0 {
 				name = "S_" + sanitize(key)
+			} else {
+				// `type Certificate unauthenticatedBundle`: both names denote the same struct (go/types
+				// shares the *types.Struct), so they share one SMT sort and conversions are the identity.
+				// The sort is named after the first of them that is encountered (the traversal order is fixed).
+				if s.structOwner == nil {
+					s.structOwner = map[*types.Struct]string{}
+				}
+				if owner, ok := s.structOwner[st]; ok {
+					name = owner
+				} else {
+					s.structOwner[st] = name
+				}
 			}
 			return s.declStruct(name, st)
 		}
